@@ -9,6 +9,12 @@ and counted in `boundary_skipped`.
 Stage C (oracle): the selection rule re-evaluated independently with `fractions` on the returned
 arrays (prefix, length, cap, keep-one, scale); tree level: `recursive_truncation` / `svd_truncation`
 on random tree states with `truncate_singular_values` wrapped from outside to learn what was discarded.
+Value level (stream `value`, theorems `projector_matrix_value`, `projector_identity_value`, `projector_linear_value`,
+`recursive_truncation_value_telescope`): integer tree states; integer projectors (identity, permutation, 0/1 selection,
+general) are inserted on bonds through the library's own `insert_projection_operator_and_conjugate`; the dense state
+before / after every insertion (independent contraction) is compared EXACTLY with the Lean model's `netValue`
+(`C04 einrec`, Ptn/Common/EinsumDriver.lean) of the flat network the theorems are about (left-hand and right-hand side),
+and the real `recursive_truncation` with nothing discarded is compared with the model's value of the original network.
 """
 from __future__ import annotations
 
@@ -31,7 +37,11 @@ RULE = ("cases: (spectrum, parameter object) pairs — dyadic/integer spectra wi
         "setting attributes, or one shared object re-used for all calls; truncated_tensor_svd and "
         "contr_truncated_svd_splitting (all contraction modes) on tensors with designed spectra for arbitrary "
         "parameters; tree states with prefix-related identifiers, nodes with 0 / 2 open legs, norms 1e-8 .. 1e8, and "
-        "a second truncation of the same object. non-trivial = distinct case in which something is discarded, the cap or the keep-one "
+        "a second truncation of the same object. Value level (own random stream `value`): integer tree states (2-5 "
+        "nodes, bonds 1-3) with integer projectors - identity, permutation, 0/1 selection, general - inserted on one "
+        "bond or on all bonds in truncate_node order through insert_projection_operator_and_conjugate, and "
+        "recursive_truncation with nothing to discard; compared exactly with the Lean model's netValue (einrec). "
+        "non-trivial = distinct case in which something is discarded, the cap or the keep-one "
         "branch is taken, a tie occurs, or renormalisation rescales")
 PARTIAL = ["tree level, error bound: proved are (i) one projector insertion at the orthogonality centre changes the "
            "state by exactly the discarded weight (single_projector_error, root_step_bound; SVD and isometric "
@@ -48,8 +58,17 @@ PARTIAL = ["tree level, error bound: proved are (i) one projector insertion at t
            "invariant preserved and every node keeping exactly its open axes (labels, order, dimensions); the older "
            "*_structure_partial theorems are kept with their weaker statements (identifiers / parents / children only). "
            "The kept dimensions and the order of the canonicalisation moves are INPUTS of that model (compared with the "
-           "library by the comp stream of C02); that every bond equals the length of a kept prefix (hence <= "
-           "max_bond_dim) is decided by the oracle only",
+           "library by the comp stream of C02); that every kept dimension produced by the selection model is in "
+           "[1, max_bond_dim] is proved (keptDim_bounds) and lifted to the bonds of the structural result GIVEN that each "
+           "bond axis of the result carries a kept dimension (recursive_truncation_bonds_le_partial: that hypothesis is "
+           "checked by evaluation on a concrete network in Lean and by the oracle on every run; svd_truncation: oracle only)",
+           "value level: projector_matrix_value / projector_identity_value / projector_linear_value / "
+           "recursive_truncation_value_telescope are about the flat-network semantics netValue with the inserted tensors "
+           "P, Pc ARBITRARY; that the tensors the library inserts are U1.conj(), U1.T of the SVD of the node tensor, that "
+           "the contractions after the insertions (contract_all_children) leave the value unchanged (split_leaf_value read "
+           "backwards, C02) and that netValue is what the library's dense state is are checked per run on integer "
+           "tensors (stream value), not proved; the norm of the single-step defect is bounded by "
+           "single_projector_error / general_step_bound under their SVD / isometry hypotheses",
            "floating point: the model is exact; decisions closer than 1e-12 to a boundary are skipped unless "
            "the float computation is exact"]
 ASSUMPTIONS = ["svd_truncation is given a state with an orthogonality centre (it raises AssertionError otherwise: "
@@ -524,7 +543,10 @@ def run(ctx):
     for c, (a, n) in zip(cases, where):
         if ctx.time_left() < 0:
             break
+        if c["kind"] == "value":
+            continue
         run_case(ctx, c, outs[a:a + n] if n else None)
+    run_values(ctx, [c for c in cases if c["kind"] == "value"] + gen_value_cases(ctx))
 
 
 def run_case(ctx, case, model_out=None):
@@ -538,6 +560,8 @@ def run_case(ctx, case, model_out=None):
         _case_trunc(ctx, case, model_out)
     elif kind == "tsvd":
         _case_tsvd(ctx, case)
+    elif kind == "value":
+        run_values(ctx, [case])
     else:
         _case_tree(ctx, case)
 
@@ -997,6 +1021,264 @@ def _truncate_once(ctx, case, ttns, method, prm):
     return probs, any_disc, len(calls)
 
 
+# ------------------------------------------------------------------ value level
+
+VALUE_KINDS = ["identity", "perm", "select", "select", "general"]
+
+
+def gen_value_cases(ctx):
+    rng = ctx.subrng("value")            # own stream: the other streams replay unchanged
+    cases = []
+    for _ in range(ctx.n(60, 600)):
+        cases.append({"kind": "value", "seed": rng.randrange(10 ** 9), "n": rng.choice([2, 3, 3, 4, 4, 5]),
+                      "mode": rng.choice(["one", "one", "run", "run", "rt"])})
+    return cases
+
+
+def _int_state(case):
+    """A small tree state with integer tensors (real, entries -2..2), built through the public API."""
+    import random
+    from pytreenet.ttns.ttns import TreeTensorNetworkState
+    rng = random.Random(case["seed"])
+    nprng = np.random.default_rng(case["seed"])
+    n = case["n"]
+    par = gen.random_parent_array(rng, n)
+    bond = gen.random_bonds(rng, par, (1, 2, 2, 2, 3))
+    open_dims = {i: [rng.choice((1, 2, 2))] for i in range(n)}
+    order = gen.insertion_order(rng, par)
+    attach = {i: [] for i in range(n)}
+    for x in order:
+        if par[x] >= 0:
+            attach[par[x]].append(x)
+    tensors = {}
+    for x in range(n):
+        dims = ([bond[(par[x], x)]] if par[x] >= 0 else []) + [bond[(x, c)] for c in attach[x]] + open_dims[x]
+        tensors[x] = nprng.integers(-2, 3, size=tuple(dims)).astype(float)
+    ttns, _, _, _ = gen.build_network(TreeTensorNetworkState, par, bond, open_dims, rng, nprng, order=order,
+                                      tensors=tensors)
+    return ttns, rng
+
+
+def _flat_network(ttns, order):
+    """The flat network of the state: one leg number per (node, axis); a bond = (parent's leg, child's leg)."""
+    dims, leaves, legnum = [], [], {}
+    for nid in ttns.nodes:
+        t = np.asarray(ttns.tensors[nid])
+        ll = []
+        for lab, d in zip(dense.node_labels(ttns, nid), t.shape):
+            legnum[(nid, lab)] = len(dims)
+            ll.append(len(dims))
+            dims.append(int(d))
+        leaves.append((ll, np.round(t.real).astype(np.int64)))
+    bonds = {}
+    for nid, node in ttns.nodes.items():
+        if node.parent is not None:
+            lab = ("e", "", node.parent, nid)
+            bonds[(node.parent, nid)] = (legnum[(node.parent, lab)], legnum[(nid, lab)])
+    free = [legnum[(nid, ("o", "", nid, k))] for nid in order for k in range(ttns.nodes[nid].nopen_legs())]
+    return dims, free, bonds, leaves
+
+
+def _trunc_order(ttns):
+    """(parent, child) in the order `truncate_node` cuts the bonds (= `Ptn.C10.truncOrder`)."""
+    out = []
+
+    def rec(nid):
+        cs = list(ttns.nodes[nid].children)
+        out.extend((nid, c) for c in cs)
+        for c in cs:
+            rec(c)
+    rec(ttns.root_id)
+    return out
+
+
+def _int_projector(rng, d, kind):
+    """Integer matrix P of shape (d, k) (leg order of `get_truncation_projector`: child leg, new leg)."""
+    perm = list(range(d))
+    rng.shuffle(perm)
+    pm = np.zeros((d, d))
+    for i, j in enumerate(perm):
+        pm[i, j] = 1.0
+    if kind == "identity":
+        return np.eye(d)
+    if kind == "perm":
+        return pm
+    if kind == "select":
+        return pm[:, :rng.randint(1, d)]
+    k = rng.randint(1, d)
+    return np.array([[float(rng.randint(-1, 2)) for _ in range(k)] for _ in range(d)])
+
+
+def _vsize(dims, free, pairs):
+    size = 1
+    for a, _ in pairs:
+        size *= dims[a]
+    for l in free:
+        size *= dims[l]
+    return size
+
+
+def _prepare_value(ctx, case):
+    """Runs the library; returns (lines, judge) where judge(tables) reports; None when the case was settled."""
+    from harness import einsum_corr
+    from pytreenet.core.truncation.recursive_truncation import (insert_projection_operator_and_conjugate,
+                                                                recursive_truncation)
+    try:
+        ttns, rng = _int_state(case)
+    except Exception as e:          # noqa: BLE001
+        raise common.HarnessError(f"C10 value generator failed: {type(e).__name__}: {e}")
+    order = sorted(ttns.nodes)
+    dims, free, bonds, leaves = _flat_network(ttns, order)
+    v0 = dense.ttns_vector(ttns, order)
+    mode = case["mode"]
+    ctx.tally("value_mode", mode)
+    ctx.tally("value_nodes", case["n"])
+    if not bonds:
+        mode = "rt"                 # a single node: only the whole routine is left
+    plain = lambda skip=(): [bonds[e] for e in bonds if e not in skip]      # noqa: E731
+    lines = [einsum_corr.einrec_line(dims, free, plain(), leaves)]          # [0]: the original network
+    if mode == "rt":
+        work = copy.deepcopy(ttns)
+        try:
+            with warnings.catch_warnings():
+                warnings.simplefilter("ignore")
+                recursive_truncation(work, SVDParameters_full())
+            v1 = dense.ttns_vector(work, order)
+        except Exception as e:      # noqa: BLE001
+            ctx.oracle_fail(case, f"value/rt: recursive_truncation with nothing to discard raised "
+                                  f"{type(e).__name__}: {str(e)[:160]}")
+            return None
+
+        def judge(tabs):
+            ctx.count(("value", "rt", case["seed"]), nontrivial=len(bonds) >= 1, corr=True)
+            m0 = np.array(tabs[0], dtype=float)
+            if m0.shape != v0.shape or np.any(m0 != v0.real) or np.any(v0.imag != 0):
+                ctx.corr_fail(case, f"value: model netValue of the integer state {m0[:6]} != dense state {v0[:6]}")
+                return
+            nrm = max(float(np.linalg.norm(m0)), 1e-300)
+            if v1.shape != m0.shape or float(np.linalg.norm(v1 - m0)) > 1e-10 * nrm:
+                ctx.oracle_fail(case, f"value/rt: recursive_truncation with max_bond_dim=inf and tolerances -inf (nothing "
+                                      f"discarded) changed the state: |after - model value of the original network| = "
+                                      f"{float(np.linalg.norm(v1 - m0)):.3e} (norm {nrm:.3e})")
+        return lines, judge
+    # hand insertions through the library's own insertion routine
+    edges = _trunc_order(ttns)
+    if mode == "one":
+        edges = [rng.choice(edges)]
+    steps, states = [], [v0]
+    work = copy.deepcopy(ttns)
+    nxt = len(dims)
+    dims2 = list(dims)
+    for (p, c) in edges:
+        a, b = bonds[(p, c)]
+        d = dims[a]
+        kind = rng.choice(VALUE_KINDS)
+        P = _int_projector(rng, d, kind)
+        k = P.shape[1]
+        try:
+            insert_projection_operator_and_conjugate(c, p, P.copy(), work)
+            states.append(dense.ttns_vector(work, order))
+        except Exception as e:      # noqa: BLE001
+            ctx.oracle_fail(case, f"value: insert_projection_operator_and_conjugate({c!r}, {p!r}, {kind} projector "
+                                  f"{P.shape}) raised {type(e).__name__}: {str(e)[:160]}")
+            return None
+        a1, kk, kk1, b1 = nxt, nxt + 1, nxt + 2, nxt + 3
+        nxt += 4
+        dims2 += [d, k, k, d]
+        Pi = np.round(P.conj() @ P.T).astype(np.int64)          # the matrix on the bond, rows: parent side
+        steps.append({"edge": (p, c), "a": a, "b": b, "a1": a1, "b1": b1, "k": kk, "k1": kk1, "kind": kind,
+                      "P": np.round(P).astype(np.int64), "Pi": Pi, "complete": bool(np.array_equal(Pi, np.eye(d)))})
+        ctx.tally("value_projector", kind)
+    # model lines.  For step t: L_t = network with P, Pc leaves on the bonds 0..t (left-hand side of
+    # projector_matrix_value, what the library built); M_t = the same with the matrices Pi on the bonds (right-hand side);
+    # D_t = Pi on the bonds < t, 1 - Pi_t on bond t, later bonds plain (stepDefect of the telescoping theorem)
+    def net(upto, form, defect=None):
+        ls = list(leaves)
+        prs = plain(skip=[st["edge"] for st in steps[:upto]])
+        for j, st in enumerate(steps[:upto]):
+            if form == "pp":
+                ls += [([st["a1"], st["k"]], st["P"]), ([st["k1"], st["b1"]], st["P"].T)]
+                prs += [(st["a"], st["a1"]), (st["k"], st["k1"]), (st["b1"], st["b"])]
+            else:
+                mat = st["Pi"]
+                if defect is not None and j == defect:
+                    mat = np.eye(mat.shape[0], dtype=np.int64) - mat
+                ls += [([st["a1"], st["b1"]], mat)]
+                prs += [(st["a"], st["a1"]), (st["b1"], st["b"])]
+        return dims2, free, prs, ls
+    plan = []
+    for t in range(len(steps)):
+        for form, defect in (("pp", None), ("mat", None), ("mat", t)):
+            dd, ff, prs, ls = net(t + 1, form, defect)
+            if _vsize(dd, ff, prs) > 30000:
+                ctx.tally("value_mode", "skipped (too large)")
+                return None
+            plan.append((t, form, defect))
+            lines.append(einsum_corr.einrec_line(dd, ff, prs, ls))
+
+    def judge(tabs):
+        ctx.count(("value", mode, case["seed"]), nontrivial=any(not st["complete"] for st in steps) or len(steps) > 1,
+                  corr=True)
+        if any(tb is None for tb in tabs):
+            ctx.corr_fail(case, "value: the value-level model rejects a flat network built from the library's tensors")
+            return
+        m0 = np.array(tabs[0], dtype=float)
+        if m0.shape != v0.shape or np.any(m0 != v0.real) or np.any(v0.imag != 0):
+            ctx.corr_fail(case, f"value: model netValue of the integer state {m0[:6]} != dense state {v0[:6]}")
+            return
+        got = {key: np.array(tb, dtype=float) for key, tb in zip(plan, tabs[1:])}
+        total = np.zeros_like(m0)
+        for t, st in enumerate(steps):
+            lib_before, lib_after = states[t].real, states[t + 1].real
+            what = f"bond {st['edge']}, {st['kind']} projector {st['P'].shape}"
+            if st["complete"] and np.any(lib_after != lib_before):
+                ctx.oracle_fail(case, f"value: a complete projector (P.Pc = 1) inserted on {what} changed the state "
+                                      f"(identity clause)")
+                return
+            if np.any(got[(t, "mat", t)] != lib_before - lib_after):
+                ctx.oracle_fail(case, f"value: state before - state after the insertion on {what} is not the network with "
+                                      f"1 - P.Pc on that bond (projector_linear_value): {(lib_before - lib_after)[:6]} vs "
+                                      f"{got[(t, 'mat', t)][:6]}")
+                return
+            if np.any(got[(t, "pp", None)] != lib_after):
+                ctx.corr_fail(case, f"value: after the insertion on {what} the library's dense state {lib_after[:6]} != model "
+                                    f"netValue of the network with P, Pc on the bond {got[(t, 'pp', None)][:6]}")
+                return
+            if np.any(got[(t, "mat", None)] != got[(t, "pp", None)]):
+                ctx.corr_fail(case, f"value: model: network with P, Pc != network with the matrix P.Pc on {what} "
+                                    f"(contradicts projector_matrix_value)")
+                return
+            total += got[(t, "mat", t)]
+        if np.any(total != states[0].real - states[-1].real):
+            ctx.oracle_fail(case, "value: the change of the state over the run of insertions is not the telescoping sum of "
+                                  "the single-step defects (recursive_truncation_value_telescope)")
+        ctx.sample(case, 8)
+    return lines, judge
+
+
+def SVDParameters_full():
+    from pytreenet.util.tensor_splitting import SVDParameters
+    return SVDParameters(max_bond_dim=INF, rel_tol=-INF, total_tol=-INF)
+
+
+def run_values(ctx, cases):
+    """All value cases: the library first, one batch for the model, then the verdicts."""
+    from harness import einsum_corr
+    prepared, lines = [], []
+    for case in cases:
+        if ctx.time_left() < 0:
+            break
+        res = _prepare_value(ctx, case)
+        if res is None:
+            continue
+        ls, judge = res
+        prepared.append((len(lines), len(ls), judge))
+        lines.extend(ls)
+    outs = ctx.lean.batch(lines) if lines else []
+    for a, n, judge in prepared:
+        judge([einsum_corr.parse_table(x, "full") for x in outs[a:a + n]])
+
+
 # ------------------------------------------------------------------ shrinking
 
 def shrink(case):
@@ -1028,6 +1310,11 @@ def shrink(case):
         for key, val in (("again", None), ("names", False), ("opens", "one"), ("norm", None)):
             if case.get(key):
                 yield dict(case, **{key: val})
+    elif case["kind"] == "value":
+        if case["n"] > 2:
+            yield dict(case, n=case["n"] - 1)
+        if case["mode"] == "run":
+            yield dict(case, mode="one")
     elif case["kind"] == "tsvd":
         if case["scale"] != 1.0:
             yield dict(case, scale=1.0)
